@@ -298,6 +298,31 @@ def c17_tables(n, seed, procs):
                 dup = next((n_ for n_ in names if n_ is None or names.count(n_) > 1), None)
                 fails.append(dict(what="class constraint names of %s do not identify the constraint (%r occurs %d times)" % (cls, dup, names.count(dup)), oracle="c17_tables", input=desc, tags=tags + ["c17-names:" + cls]))
         if it < 2: samples.append(dict(cls=cls, samples=len(f.list_of_points), tables={k: list(v.shape) for k, v in f.tables_of_constraints.items() if hasattr(v, "shape")}))
+        if rnd.random() < .5:
+            # the tables are read, the model is edited (one more sample), it is solved again with other multipliers and the
+            # tables are read again: they must be those of the latest solve, with the latest shape
+            try:
+                from PEPit import Point
+                f.oracle(Point())
+                w2 = cw.SolvingWrapper(rnd.randint(0, 10 ** 6))
+                with contextlib.redirect_stdout(io.StringIO()):
+                    pep._solve_with_wrapper(w2, verbose=0)
+            except AssertionError: pass
+            except Exception: continue
+            try:
+                duals2 = f.get_class_constraints_duals()
+            except Exception as ex:
+                fails.append(dict(what="%s.get_class_constraints_duals() raises %s after a second solve" % (cls, type(ex).__name__), oracle="c17_tables", input=desc, tags=tags + ["c17-duals-raise:%s:%s" % (cls, type(ex).__name__)])); continue
+            for name, tab in f.tables_of_constraints.items():
+                if name not in duals2:
+                    fails.append(dict(what="no dual table for condition %s of %s after a second solve" % (name, cls), oracle="c17_tables", input=desc, tags=tags)); continue
+                T = tab.values; D = duals2[name].values
+                if T.shape != D.shape:
+                    fails.append(dict(what="after one more sample and a second solve the dual table of %s has shape %s, the constraints table %s (stale table)" % (name, D.shape, T.shape), oracle="c17_tables", input=desc, tags=tags)); continue
+                bad = [(i, j) for i in range(T.shape[0]) for j in range(T.shape[1]) if isinstance(T[i, j], Constraint) and float(D[i, j]) != float(T[i, j].eval_dual())]
+                if bad:
+                    i, j = bad[0]
+                    fails.append(dict(what="after a second solve dual table %s entry (%d,%d) is %r, the multiplier of the constraint stored there is %r (%d stale entries)" % (name, i, j, D[i, j], T[i, j].eval_dual(), len(bad)), oracle="c17_tables", input=desc, tags=tags))
         if len(fails) > 12: break
     return dict(evaluations=n, distinct=len(distinct), failures=fails[:12], samples=samples)
 
